@@ -25,7 +25,14 @@ def run_one(prop: str, tier: str, repo=None) -> int:
         return 2
     try:
         ctx = Ctx(prop, tier, repo)
-        mod.run(ctx)
+        try:
+            mod.run(ctx)
+        except AnalysisError as e:
+            # an anchor was lost part-way: if a rule already found a violation the run is decided (exit 1);
+            # otherwise the analysis is inconclusive (exit 2)
+            if not any(i.verdict == "violation" for i in ctx.instances):
+                raise
+            ctx.info("ANALYSIS", prop, "-", f"analysis stopped early after reporting violations: {e}")
         rc = ctx.finish()
         if tier == "thorough" and rc == 0:
             from . import selftest
